@@ -6,7 +6,7 @@ sys.path.insert(0, HERE)
 import manifest_table as T
 
 checks = []
-for c in T.CHECKS:
+for c in sorted(T.CHECKS, key=lambda c: c["id"]):
     pid = c["id"]
     checks.append({
         "property_id": pid,
